@@ -33,7 +33,7 @@ def plan(tier, seed):
     return [s for s in specs if s["stratum"] != "io_fault" or catalog.info(s["cls"]).backend == "json"]
 
 
-def build(spec, i, tag, p_read=0.3, outside=False):
+def build(spec, i, tag, p_read=0.3, outside=False, fault_mode="reissue"):
     info = catalog.info(spec["cls"])
     r = gen.rng_for(spec["seed"], tag, spec["cls"], spec["stratum"], i)
     g = gen.G(r, attr=info.attr, collide=spec["stratum"] == "collide")
@@ -102,12 +102,27 @@ def build(spec, i, tag, p_read=0.3, outside=False):
         if base_filter == "no_child_cr" and not H.is_root:
             flt = ["setitem", "delitem", "pop", "popitem", "update", "setdefault", "insert", "append",
                    "extend", "iadd", "remove", "reverse"]
-        sub_steps = gen.gen_program(g, ms, 1, p_read=p_read, depth=2, handles=[H.id], mutator_filter=flt)
+        single_fault = spec["stratum"] == "io_fault" and fault_mode == "single" and r.random() < 0.3
+        snap = copy.deepcopy(ms) if single_fault else None
+        sub_steps = gen.gen_program(g, ms, 1, p_read=0.0 if single_fault else p_read, depth=2, handles=[H.id],
+                                    mutator_filter=flt)
+        if single_fault and sub_steps:
+            # a mutator that fails with an injected I/O fault (during its load or its save) and is *not* re-issued:
+            # the generator goes on from the state before it, and reads through the same handle, through the other
+            # objects and through retained children follow at once
+            ms.__dict__.clear()
+            ms.__dict__.update(snap.__dict__)
+            f = dict(sub_steps[0])
+            f["fault"] = {"eio": r.choice([1, 2, 2, 2, 3])}
+            steps.append(f)
+            steps.extend(gen.gen_program(g, ms, r.choice([1, 2, 3]), p_read=1.0, depth=2, handles=[H.id]))
+            steps.extend(gen.gen_program(g, ms, r.choice([0, 1, 2]), p_read=1.0, depth=2))
+            continue
         for st in sub_steps:
             steps.append(st)
             if _m.is_mutator(st["op"]):
                 last_writer = H.root
-    if spec["stratum"] == "io_fault":
+    if spec["stratum"] == "io_fault" and fault_mode == "reissue":
         # idempotent mutators are first issued with an injected I/O fault (EIO at the j-th file-system event of
         # the call: during the load or during the save) and then re-issued cleanly: a failed call through one
         # handle must not make later calls through that handle (or its children) clobber other handles' writes
